@@ -36,8 +36,20 @@ Theorem C24_not_entitled_not_stored :
     r_owns (fst (add_change (run q ops) w data k h t rts)) = r_owns (run q ops).
 Proof. exact not_entitled_not_stored. Qed.
 
-(* a strictly stronger matched writer takes the instance over (and only this instance); its
-   sample is Added when nothing but ownership can refuse it *)
+(* THE POINT OF FIX 9c92a58 - for ALL QoS (EXCLUSIVE or SHARED), ALL histories, every writer and
+   every change: a change that is not stored (NotAdded by ownership or by the time-based filter,
+   Rejected by a resource limit, unknown-instance error) leaves the ownership table unchanged.
+   (depth 0 makes the real code panic and is excluded.) *)
+Theorem C24_not_stored_ownership_unchanged :
+  forall (q : qos) (ops : list op) w data k h t rts,
+    q_depth q <> Some 0 ->
+    snd (add_change (run q ops) w data k h t rts) <> Added ->
+    r_owns (fst (add_change (run q ops) w data k h t rts)) = r_owns (run q ops).
+Proof. exact not_stored_owns_unchanged_run. Qed.
+
+(* a strictly stronger matched writer takes the instance over (and only this instance) exactly
+   when its sample is stored; otherwise nothing changes; its sample is Added when nothing but
+   ownership can refuse it *)
 Theorem C24_strongest_wins :
   forall (q : qos) (ops : list op), q_excl q = true ->
   forall w data k h t rts o so sw,
@@ -45,8 +57,10 @@ Theorem C24_strongest_wins :
     strength_of (run q ops) o = Some so -> strength_of (run q ops) w = Some sw -> so < sw ->
     is_alive_kind k = true ->
     let r' := fst (add_change (run q ops) w data k h t rts) in
-    owner_of r' h = Some w /\ (forall h', h' <> h -> owner_of r' h' = owner_of (run q ops) h') /\
-    (no_other_gate q -> snd (add_change (run q ops) w data k h t rts) = Added).
+    let a := snd (add_change (run q ops) w data k h t rts) in
+    (a = Added -> owner_of r' h = Some w /\ forall h', h' <> h -> owner_of r' h' = owner_of (run q ops) h') /\
+    (a <> Added -> q_depth q <> Some 0 -> forall h', owner_of r' h' = owner_of (run q ops) h') /\
+    (no_other_gate q -> a = Added).
 Proof. exact strongest_wins. Qed.
 
 (* ties: with equal strengths the current owner keeps the instance *)
@@ -60,22 +74,28 @@ Theorem C24_tie_is_stable :
     entitled (run q ops) o h = true.
 Proof. exact tie_is_stable. Qed.
 
-(* the general effect of a change from an entitled writer: it becomes the owner (alive change)
-   or the ownership is released (dispose / unregister); no other instance is affected *)
+(* the general effect of a change from an entitled writer: ownership changes exactly when the
+   change is stored - then the writer becomes the owner (alive change) or the ownership is
+   released (dispose / unregister) and no other instance is affected; a change refused by the
+   time-based filter or a resource limit changes nothing *)
 Theorem C24_entitled_effect :
   forall (q : qos) (ops : list op), q_excl q = true ->
   forall w data k h t rts,
     entitled (run q ops) w h = true ->
     (is_alive_kind k = true \/ find_inst h (r_insts (run q ops)) <> None) ->
     let r' := fst (add_change (run q ops) w data k h t rts) in
-    snd (add_change (run q ops) w data k h t rts) <> AddError /\
-    (forall h', owner_of r' h' =
+    let a := snd (add_change (run q ops) w data k h t rts) in
+    a <> AddError /\
+    (a = Added ->
+     forall h', owner_of r' h' =
                 if h' =? h then (if is_alive_kind k then Some w else None) else owner_of (run q ops) h') /\
-    (no_other_gate q -> snd (add_change (run q ops) w data k h t rts) = Added).
+    (a <> Added -> q_depth q <> Some 0 -> forall h', owner_of r' h' = owner_of (run q ops) h') /\
+    (no_other_gate q -> a = Added).
 Proof. exact entitled_effect. Qed.
 
-(* every stored change was written by a writer entitled to the instance at that moment;
-   afterwards that writer is the owner, or - when the stored change is the owner's dispose or
+(* every stored change was written by a writer entitled to the instance at that moment
+   (together with C24_not_stored_ownership_unchanged: ownership changes ONLY through stored
+   changes and remove_matched_publication); afterwards that writer is the owner, or - when the stored change is the owner's dispose or
    unregister - the ownership is released and the next writer of ANY strength is entitled *)
 Theorem C24_stored_by_owner :
   forall (q : qos) (ops : list op), q_excl q = true ->
@@ -132,8 +152,23 @@ Example C24_nonvacuous :
   owner_of (run q ops) 1 = Some 1.
 Proof. exact nonvacuous. Qed.
 
+(* the case that exposed the defect repaired by 9c92a58 (replays/C24-a01b301e15), on the model of
+   the fixed code: max_samples_per_instance 1, the dispose of the owner (writer 3, strength 5) is
+   Rejected, so writer 3 stays the owner and both samples of writer 2 (strength 1) are NotAdded *)
+Example C24_fix_9c92a58_replay :
+  let q := mkQ true None (Some 2) (Some 2) (Some 1) true (Some 0) in
+  let ops := [OpMatch 1 2; OpMatch 2 1; OpMatch 3 5; OpAdd 3 1 KAlive (Some 11) 101 13;
+              OpAdd 3 1 KDisposed (Some 23) 102 16; OpAdd 2 1 KAlive (Some 30) 103 18;
+              OpTake 2147483647 (mkM true true true true true true true) (Some 1);
+              OpAdd 2 1 KAlive (Some 5) 104 18] in
+  map (fun x => match x with ObsAdd a => Some a | _ => None end) (snd (run_obs (init_reader q) ops)) =
+    [None; None; None; Some Added; Some (Rejected 1 3); Some NotAdded; None; Some NotAdded] /\
+  owner_of (run q ops) 1 = Some 3 /\ r_samples (run q ops) = [].
+Proof. exact fix_replay. Qed.
+
 Print Assumptions C24_only_owner_stores.
 Print Assumptions C24_not_entitled_not_stored.
+Print Assumptions C24_not_stored_ownership_unchanged.
 Print Assumptions C24_strongest_wins.
 Print Assumptions C24_tie_is_stable.
 Print Assumptions C24_entitled_effect.
